@@ -3,6 +3,7 @@
   Property theorems only; helper lemmas live in CedarProofs/{CodecLemmas,CodecStr}.lean.
 -/
 import CedarProofs.CodecStr
+import CedarProofs.CodecDouble
 
 namespace Cedar.C14
 
@@ -69,6 +70,85 @@ theorem double_precision_partial (F fracInt : Int) (hF : 4503599627370496 ≤ F.
   generalize (fracInt * 9007199254740992 - F * ((2147483647 : Nat) : Int)).natAbs = a at hnear ⊢
   generalize F.natAbs = b at hF ⊢
   omega
+
+/-- **PutStringBytes has PutString's wire bytes**: in both string modes, from any buffer, for every
+    NUL-free string — the ≥ one-frame branch (flush, length prefix, the bytes, then the terminator
+    by a second `PutBytes`) included, terminator and all. -/
+theorem strbytes_layout (enc : Bool) (buf s : Bytes) (hnz : ∀ b ∈ s, b ≠ 0) (hlen : s.length + 1 < 2^64) :
+    wireBytes (putStringBytes enc buf s) = buf ++ Spec.enc enc (.str s) := by
+  have hnul : truncNul s = s := takeWhile_all _ s (fun b hb => by simpa using hnz b hb)
+  unfold putStringBytes
+  simp only [hnul]
+  by_cases hbig : s.length + 1 + (if enc = true then 8 else 0) > maxFramePayload enc
+  · rw [if_pos hbig]
+    rw [wireBytes_seqPut _ _ [0] (wireBytes_putBytes _ _ _)]
+    rw [wireBytes_seqPut _ _ s (wireBytes_putBytes _ _ _)]
+    cases enc with
+    | false =>
+      simp only [Bool.false_eq_true, if_false]
+      by_cases hb : buf.length > 0
+      · simp [hb, wireBytes, Spec.enc]
+      · have : buf = [] := List.eq_nil_of_length_eq_zero (by omega)
+        simp [this, wireBytes, Spec.enc]
+    | true =>
+      simp only [if_true]
+      rw [wireBytes_seqPut _ _ (be64 (toU64 ((s.length + 1 : Nat) : Int))) (wireBytes_putInt _ _)]
+      rw [toU64_nat _ hlen]
+      by_cases hb : buf.length > 0
+      · simp [hb, wireBytes, Spec.enc]
+      · have : buf = [] := List.eq_nil_of_length_eq_zero (by omega)
+        simp [this, wireBytes, Spec.enc]
+  · rw [if_neg hbig]
+    exact wireBytes_putString enc buf s hnz hlen
+
+/-- **double_layout**: a double travels as exactly two 8-byte big-endian integers — the fraction
+    scaled by `FracConst = 2^31 − 1` and truncated, then the binary exponent — in both string
+    modes and whatever the flush policy does with frame boundaries (sixteen bytes in all). -/
+theorem double_layout (enc : Bool) (m e : Int)
+    (hfi : -(2^63 : Int) ≤ (encodeDbl m e).1 ∧ (encodeDbl m e).1 < (2^63 : Int))
+    (he : -(2^63 : Int) ≤ e ∧ e < (2^63 : Int)) :
+    wireBytes (putAll enc [] (dblVals m e)) = be64 (toU64 (encodeDbl m e).1) ++ be64 (toU64 e) ∧
+    fracConst = 2147483647 := by
+  refine ⟨?_, rfl⟩
+  have hwf : ∀ v ∈ dblVals m e, v.wf := by
+    intro v hv
+    simp only [dblVals, List.mem_cons, List.mem_nil_iff, or_false] at hv
+    rcases hv with rfl | rfl
+    · exact hfi
+    · exact he
+  rw [layout enc (dblVals m e) hwf]
+  simp [dblVals, Spec.encAll, Spec.enc]
+  rfl
+
+/-- **double_frac_range**: for every finite double (`|m| < 2^53`) the scaled fraction fits the
+    int32 the sender converts it to (`|fracInt| < 2^31 − 1`), has the sign of the value, and the
+    exponent travels unchanged. -/
+theorem double_frac_range (m e : Int) (hm : m.natAbs < twoPow53) :
+    (encodeDbl m e).1.natAbs < fracConst ∧ ((encodeDbl m e).1 < 0 → m < 0) ∧ (encodeDbl m e).2 = e :=
+  ⟨by rw [encodeDbl_abs]; exact fracOfNat_lt _ hm, encodeDbl_sign m e, rfl⟩
+
+/-- **double_precision** (about the model's `encodeDbl` / `decodeDbl`): for every finite non-zero
+    double `m · 2^(e−53)`, `2^52 ≤ |m|`, the receiver reconstructs `fi / FracConst · 2^ex` with
+    `(fi, ex) = encodeDbl m e`: the exponent is `e`, the denominator is `FracConst = 2^31 − 1`, and
+    the fraction is within relative error `2^-29` of `m / 2^53` — on magnitudes and without
+    division: `| |fi|·2^53 − |m|·FracConst | · 2^29 ≤ FracConst · |m|` (both truncated differences).
+    The same bound holds for EVERY magnitude `q` that is `NearN` the exact quotient, which is
+    what a Go run puts on the wire (float rounding before the truncation: the trusted part,
+    measured with exact integers by the codec engine on every double sent). -/
+theorem double_precision (m e : Int) (hm : twoPow53 / 2 ≤ m.natAbs) :
+    (decodeDbl (encodeDbl m e).1 (encodeDbl m e).2).2 = e ∧
+    (decodeDbl (encodeDbl m e).1 (encodeDbl m e).2).1.2 = fracConst ∧
+    (((encodeDbl m e).1.natAbs * twoPow53 - m.natAbs * fracConst) * 536870912 ≤ fracConst * m.natAbs ∧
+     (m.natAbs * fracConst - (encodeDbl m e).1.natAbs * twoPow53) * 536870912 ≤ fracConst * m.natAbs) ∧
+    ∀ q, NearN m.natAbs q →
+      (q * twoPow53 - m.natAbs * fracConst) * 536870912 ≤ fracConst * m.natAbs ∧
+      (m.natAbs * fracConst - q * twoPow53) * 536870912 ≤ fracConst * m.natAbs := by
+  refine ⟨rfl, rfl, ?_, fun q hq => precisionN _ q hm hq⟩
+  rw [encodeDbl_abs]
+  exact precisionN _ _ hm (fracOfNat_near _)
+
+/-- non-vacuity: 1.0 = 2^52 · 2^(1−53) travels as (⌊FracConst/2⌋, 1); −0.75 keeps its sign -/
+example : encodeDbl 4503599627370496 1 = (1073741823, 1) ∧ encodeDbl (-6755399441055744) 0 = (-1610612735, 0) := by decide
 
 /-- **typed frames fit** (shared with C01): the integer and character encoders never let the
     buffer or a flushed frame exceed the largest payload a frame may carry in the current mode. -/
